@@ -18,7 +18,9 @@
 EXTENDS Naturals, Sequences, FiniteSets
 
 CONSTANTS NWorkers, QCap, MaxWrites, Ks,
-          FlushTrySend    \* TRUE (not the code): the flush task is announced with try_send
+          AsFound,        \* TRUE: the code before fix 80259e9 - the worker that sealed a memtable announces the
+                          \* flush task with a blocking send(Flush); FALSE: it runs a flush task itself
+          FlushTrySend    \* TRUE (not the code; with AsFound): the flush task is announced with try_send
 
 VARIABLES q,       \* Seq of [t: "R", k, m] | [t: "F"] | [t: "C"]
           wk,      \* [W -> [st, k, m]]
@@ -65,7 +67,8 @@ Acquire(w) ==
             IF wk[w].m = act[k] /\ big[k]
             THEN /\ sealed' = [sealed EXCEPT ![k] = @ + 1] /\ tasks' = Append(tasks, k)
                  /\ act' = [act EXCEPT ![k] = @ + 1] /\ big' = [big EXCEPT ![k] = FALSE]
-                 /\ wk' = [wk EXCEPT ![w] = [st |-> "sendFlush", k |-> k, m |-> 0]]
+                 /\ wk' = [wk EXCEPT ![w] = IF AsFound THEN [st |-> "sendFlush", k |-> k, m |-> 0]
+                                                        ELSE [st |-> "needLockF", k |-> 0, m |-> 0]]
             ELSE /\ wk' = [wk EXCEPT ![w] = Idle] /\ UNCHANGED <<sealed, tasks, act, big>>
        ELSE IF tasks # <<>>
             THEN /\ wk' = [wk EXCEPT ![w] = [st |-> "flushing", k |-> Head(tasks), m |-> 0]]
